@@ -374,90 +374,103 @@ example : ∃ (ctx : Ctx ℝ) (reac : List (String × ℤ)) (c : String → ℝ)
 example : pyAdd (symbolNode "x" : Val ℝ) (.node .mul false [symbolNode "y", constNode 0] none) = .ok (symbolNode "x") := by
   simp [pyAdd, Val.isNode, symbolNode, exprAdd, conv, trivZero, constNode]
 
-/-! ## guards: the code the hand-written class bodies of `Model/Expr.call` mirror (regenerated text vs. approved text) -/
+/-! ## guards: the code the hand-written bodies of `Model/Expr.lean` mirror (regenerated NORMALISED text vs. approved text;
+robust against renaming of locals, single-use temporaries, else-after-return, docstrings, layout) -/
 
-/-- `MassAction.active_conc_prod` (chempy/kinetics/rates.py) is the code the hand model `Model/Expr.call` was written from -/
+/-- `MassAction.active_conc_prod` (chempy/kinetics/rates.py) is — up to the normalisation of tools/extract/ratessrc.py — the code the hand model was written from -/
 theorem massActionConcProd_guard : Gen.srcMassActionConcProd =
-    "def(self, variables, backend=math, reaction=None): result = 1; for k, v in reaction.reac.items(): result *= variables[k] ** v; return result" := rfl
+    "def(self, variables, backend=math, reaction=None): v0 = 1; for v1, v2 in reaction.reac.items(): v0 *= variables[v1] ** v2; return v0" := rfl
 
-/-- `MassAction.rate_coeff` (chempy/kinetics/rates.py) is the code the hand model `Model/Expr.call` was written from -/
+/-- `MassAction.rate_coeff` (chempy/kinetics/rates.py) is — up to the normalisation of tools/extract/ratessrc.py — the code the hand model was written from -/
 theorem massActionRateCoeff_guard : Gen.srcMassActionRateCoeff =
-    "def(self, variables, backend=math, **kwargs): rat_c, = self.all_args(variables, backend=backend, **kwargs); return rat_c" := rfl
+    "def(self, variables, backend=math, **kwargs): v0, = self.all_args(variables, backend=backend, **kwargs); return v0" := rfl
 
-/-- `MassAction.__call__` (chempy/kinetics/rates.py) is the code the hand model `Model/Expr.call` was written from -/
+/-- `MassAction.__call__` (chempy/kinetics/rates.py) is — up to the normalisation of tools/extract/ratessrc.py — the code the hand model was written from -/
 theorem massActionCall_guard : Gen.srcMassActionCall =
     "def(self, variables, backend=math, reaction=None, **kwargs): return self.rate_coeff(variables, backend=backend, reaction=reaction) * self.active_conc_prod(variables, backend=backend, reaction=reaction, **kwargs)" := rfl
 
-/-- `Arrhenius.__call__` (chempy/kinetics/rates.py) is the code the hand model `Model/Expr.call` was written from -/
+/-- `Arrhenius.__call__` (chempy/kinetics/rates.py) is — up to the normalisation of tools/extract/ratessrc.py — the code the hand model was written from -/
 theorem arrheniusCall_guard : Gen.srcArrheniusCall =
-    "def(self, variables, backend=math, **kwargs): A, Ea_over_R = self.all_args(variables, backend=backend, **kwargs); try: Ea_over_R = Ea_over_R.simplified except AttributeError: pass; return A * backend.exp(-Ea_over_R / variables['temperature'])" := rfl
+    "def(self, variables, backend=math, **kwargs): v0, v1 = self.all_args(variables, backend=backend, **kwargs); try: v1 = v1.simplified except AttributeError: pass; return v0 * backend.exp(-v1 / variables['temperature'])" := rfl
 
-/-- `Eyring.__call__` (chempy/kinetics/rates.py) is the code the hand model `Model/Expr.call` was written from -/
+/-- `Eyring.__call__` (chempy/kinetics/rates.py) is — up to the normalisation of tools/extract/ratessrc.py — the code the hand model was written from -/
 theorem eyringCall_guard : Gen.srcEyringCall =
-    "def(self, variables, backend=math, **kwargs): c0, c1, conc0 = self.all_args(variables, backend=backend, **kwargs); T = variables['temperature']; try: c1 = c1.simplified except AttributeError: pass; return c0 * T * backend.exp(-c1 / T) * conc0 ** (1 - kwargs['reaction'].order())" := rfl
+    "def(self, variables, backend=math, **kwargs): v0, v1, v2 = self.all_args(variables, backend=backend, **kwargs); v3 = variables['temperature']; try: v1 = v1.simplified except AttributeError: pass; return v0 * v3 * backend.exp(-v1 / v3) * v2 ** (1 - kwargs['reaction'].order())" := rfl
 
-/-- `EyringHS.__call__` (chempy/kinetics/rates.py) is the code the hand model `Model/Expr.call` was written from -/
+/-- `EyringHS.__call__` (chempy/kinetics/rates.py) is — up to the normalisation of tools/extract/ratessrc.py — the code the hand model was written from -/
 theorem eyringHSCall_guard : Gen.srcEyringHSCall =
-    "def(self, variables, backend=math, reaction=None, **kwargs): dH, dS, c0 = self.all_args(variables, backend=backend, **kwargs); T, R, kB, h = [variables[k] for k in self.parameter_keys]; exponent = -(dH - T * dS) / (R * T); try: exponent = exponent.simplified except AttributeError: pass; return kB / h * T * backend.exp(exponent) * c0 ** (1 - reaction.order())" := rfl
+    "def(self, variables, backend=math, reaction=None, **kwargs): v0, v1, v2 = self.all_args(variables, backend=backend, **kwargs); v3, v4, v5, v6 = [variables[v7] for v7 in self.parameter_keys]; v8 = -(v0 - v3 * v1) / (v4 * v3); try: v8 = v8.simplified except AttributeError: pass; return v5 / v6 * v3 * backend.exp(v8) * v2 ** (1 - reaction.order())" := rfl
 
-/-- `mk_Radiolytic._Radiolytic.__call__` (chempy/kinetics/rates.py) is the code the hand model `Model/Expr.call` was written from -/
+/-- `mk_Radiolytic._Radiolytic.__call__` (chempy/kinetics/rates.py) is — up to the normalisation of tools/extract/ratessrc.py — the code the hand model was written from -/
 theorem radiolyticCall_guard : Gen.srcRadiolyticCall =
-    "def(self, variables, backend=math, reaction=None, **kwargs): return variables['density'] * reduce(add, [variables[k] * gval for k, gval in zip(self.parameter_keys[1:], self.all_args(variables, backend=backend, **kwargs))])" := rfl
+    "def(self, variables, backend=math, reaction=None, **kwargs): return variables['density'] * reduce(add, [variables[v0] * v1 for v0, v1 in zip(self.parameter_keys[1:], self.all_args(variables, backend=backend, **kwargs))])" := rfl
 
-/-- `RampedTemp.__call__` (chempy/kinetics/rates.py) is the code the hand model `Model/Expr.call` was written from -/
+/-- `RampedTemp.__call__` (chempy/kinetics/rates.py) is — up to the normalisation of tools/extract/ratessrc.py — the code the hand model was written from -/
 theorem rampedTempCall_guard : Gen.srcRampedTempCall =
-    "def(self, variables, backend=None, **kwargs): T0, dTdt = self.all_args(variables, backend=backend, **kwargs); return T0 + dTdt * variables['time']" := rfl
+    "def(self, variables, backend=None, **kwargs): v0, v1 = self.all_args(variables, backend=backend, **kwargs); return v0 + v1 * variables['time']" := rfl
 
-/-- `SinTemp.__call__` (chempy/kinetics/rates.py) is the code the hand model `Model/Expr.call` was written from -/
+/-- `SinTemp.__call__` (chempy/kinetics/rates.py) is — up to the normalisation of tools/extract/ratessrc.py — the code the hand model was written from -/
 theorem sinTempCall_guard : Gen.srcSinTempCall =
-    "def(self, variables, backend=math, **kwargs): Tbase, Tamp, angvel, phase = self.all_args(variables, backend=backend, **kwargs); return Tbase + Tamp * backend.sin(angvel * variables['time'] + phase)" := rfl
+    "def(self, variables, backend=math, **kwargs): v0, v1, v2, v3 = self.all_args(variables, backend=backend, **kwargs); return v0 + v1 * backend.sin(v2 * variables['time'] + v3)" := rfl
 
-/-- `MassActionEq.eq_const` (chempy/thermodynamics/expressions.py) is the code the hand model `Model/Expr.call` was written from -/
+/-- `MassActionEq.eq_const` (chempy/thermodynamics/expressions.py) is — up to the normalisation of tools/extract/ratessrc.py — the code the hand model was written from -/
 theorem massActionEqConst_guard : Gen.srcMassActionEqConst =
-    "def(self, variables, backend=math, **kwargs): eq_c, = self.all_args(variables, backend=backend, **kwargs); return eq_c" := rfl
+    "def(self, variables, backend=math, **kwargs): v0, = self.all_args(variables, backend=backend, **kwargs); return v0" := rfl
 
-/-- `MassActionEq.__call__` (chempy/thermodynamics/expressions.py) is the code the hand model `Model/Expr.call` was written from -/
+/-- `MassActionEq.__call__` (chempy/thermodynamics/expressions.py) is — up to the normalisation of tools/extract/ratessrc.py — the code the hand model was written from -/
 theorem massActionEqCall_guard : Gen.srcMassActionEqCall =
     "def(self, *args, **kwargs): return self.eq_const(*args, **kwargs)" := rfl
 
-/-- `GibbsEqConst.eq_const` (chempy/thermodynamics/expressions.py) is the code the hand model `Model/Expr.call` was written from -/
+/-- `GibbsEqConst.eq_const` (chempy/thermodynamics/expressions.py) is — up to the normalisation of tools/extract/ratessrc.py — the code the hand model was written from -/
 theorem gibbsEqConst_guard : Gen.srcGibbsEqConst =
-    "def(self, variables, backend=math, **kwargs): dH_over_R, dS_over_R = self.all_args(variables, backend=backend); T, = self.all_params(variables, backend=backend); exponent = dS_over_R - dH_over_R / T; try: exponent = exponent.simplified except AttributeError: pass; return backend.exp(exponent)" := rfl
+    "def(self, variables, backend=math, **kwargs): v0, v1 = self.all_args(variables, backend=backend); v2, = self.all_params(variables, backend=backend); v3 = v1 - v0 / v2; try: v3 = v3.simplified except AttributeError: pass; return backend.exp(v3)" := rfl
 
-/-- `create_Poly._poly` (chempy/util/_expr.py) is the code the hand model `Model/Expr.call` was written from -/
+/-- `create_Poly._poly` (chempy/util/_expr.py) is — up to the normalisation of tools/extract/ratessrc.py — the code the hand model was written from -/
 theorem poly_guard : Gen.srcPoly =
-    "def(args, x, backend=math, **kwargs): if shift is None: coeffs = args x0 = x else: coeffs = args[1:] x_shift = args[0] x0 = x - x_shift; cur = 1; res = None; for coeff in coeffs: if res is None: res = coeff * cur else: res += coeff * cur if reciprocal: cur /= x0 else: cur *= x0; return res" := rfl
+    "def(args, x, backend=math, **kwargs): if shift is None: v0 = args v1 = x else: v0 = args[1:] v1 = x - args[0]; v2 = 1; v3 = None; for v4 in v0: if v3 is None: v3 = v4 * v2 else: v3 += v4 * v2 if reciprocal: v2 /= v1 else: v2 *= v1; return v3" := rfl
 
-/-- `create_Piecewise._pw` (chempy/util/_expr.py) is the code the hand model `Model/Expr.call` was written from -/
+/-- `create_Piecewise._pw` (chempy/util/_expr.py) is — up to the normalisation of tools/extract/ratessrc.py — the code the hand model was written from -/
 theorem piecewise_guard : Gen.srcPiecewise =
-    "def(bounds_exprs, x, backend=math, **kwargs): if len(bounds_exprs) < 3: raise ValueError('Need at least 3 args'); if len(bounds_exprs) % 2 != 1: raise ValueError('Need an odd number of bounds/exprs'); n_exprs = (len(bounds_exprs) - 1) // 2; lower = [bounds_exprs[2 * (i + 0)] for i in range(n_exprs)]; upper = [bounds_exprs[2 * (i + 1)] for i in range(n_exprs)]; exprs = [bounds_exprs[2 * i + 1] for i in range(n_exprs)]; try: pw = backend.Piecewise except AttributeError: for lo, up, ex in zip(lower, upper, exprs): if lo <= x <= up: return ex else: raise ValueError('not within any bounds: %s' % x) else: _NAN = backend.Symbol('NAN') return pw(*[(ex, backend.And(lo <= x, x <= up)) for lo, up, ex in zip(lower, upper, exprs)] + ([(_NAN, True)] if nan_fallback else []))" := rfl
+    "def(bounds_exprs, x, backend=math, **kwargs): if len(bounds_exprs) < 3: raise ValueError('Need at least 3 args'); if len(bounds_exprs) % 2 != 1: raise ValueError('Need an odd number of bounds/exprs'); v0 = (len(bounds_exprs) - 1) // 2; v1 = [bounds_exprs[2 * (v2 + 0)] for v2 in range(v0)]; v3 = [bounds_exprs[2 * (v2 + 1)] for v2 in range(v0)]; v4 = [bounds_exprs[2 * v2 + 1] for v2 in range(v0)]; try: v5 = backend.Piecewise except AttributeError: for v6, v7, v8 in zip(v1, v3, v4): if v6 <= x <= v7: return v8 else: raise ValueError('not within any bounds: %s' % x) else: v9 = backend.Symbol('NAN') return v5(*[(v8, backend.And(v6 <= x, x <= v7)) for v6, v7, v8 in zip(v1, v3, v4)] + ([(v9, True)] if nan_fallback else []))" := rfl
 
-/-- `Expr.from_callback.body` (chempy/util/_expr.py) is the code the hand model `Model/Expr.call` was written from -/
+/-- `Expr.from_callback.body` (chempy/util/_expr.py) is — up to the normalisation of tools/extract/ratessrc.py — the code the hand model was written from -/
 theorem fromCallbackBody_guard : Gen.srcFromCallbackBody =
-    "def(self, variables, backend=math, **kw): args = self.all_args(variables, backend=backend); params = self.all_params(variables, backend=backend); return callback(args, *params, backend=backend, **kw)" := rfl
+    "def(self, variables, backend=math, **kw): v0 = self.all_args(variables, backend=backend); return callback(v0, *self.all_params(variables, backend=backend), backend=backend, **kw)" := rfl
 
-/-- `UnaryFunction.__call__` (chempy/util/_expr.py) is the code the hand model `Model/Expr.call` was written from -/
+/-- `Expr.arg` (chempy/util/_expr.py) is — up to the normalisation of tools/extract/ratessrc.py — the code the hand model was written from -/
+theorem exprArg_guard : Gen.srcExprArg =
+    "def(self, variables, index, backend=math, evaluate=True, **kwargs): if isinstance(index, str): index = self.argument_names.index(index); if self.unique_keys is None: v0 = self.args[index] elif index < len(self.unique_keys): v1 = self.unique_keys[index] try: v0 = variables[v1] except KeyError: if self.args is None: raise KeyError('Unique key missing: %s' % v1) v0 = self.args[index] elif self.args is None or index > len(self.args): v0 = self.argument_defaults[index - self.nargs + len(self.argument_defaults)] else: v0 = self.args[index]; if isinstance(v0, str): v0 = variables[v0]; if isinstance(v0, Expr) and evaluate: return v0(variables, backend=backend, **kwargs); return v0" := rfl
+
+/-- `Expr.all_args` (chempy/util/_expr.py) is — up to the normalisation of tools/extract/ratessrc.py — the code the hand model was written from -/
+theorem exprAllArgs_guard : Gen.srcExprAllArgs =
+    "def(self, variables, backend=math, evaluate=True, **kwargs): if self.nargs is None or self.nargs == -1: v0 = len(self.args) else: v0 = self.nargs; return [self.arg(variables, v1, backend, evaluate, **kwargs) for v1 in range(v0)]" := rfl
+
+/-- `Expr.all_params` (chempy/util/_expr.py) is — up to the normalisation of tools/extract/ratessrc.py — the code the hand model was written from -/
+theorem exprAllParams_guard : Gen.srcExprAllParams =
+    "def(self, variables, backend=math): return [v0(variables, backend=backend) if isinstance(v0, Expr) else v0 for v0 in [variables[v1] for v1 in self.parameter_keys]]" := rfl
+
+/-- `UnaryFunction.__call__` (chempy/util/_expr.py) is — up to the normalisation of tools/extract/ratessrc.py — the code the hand model was written from -/
 theorem unaryFunctionCall_guard : Gen.srcUnaryFunctionCall =
-    "def(self, variables, backend=math, **kwargs): arg, = self.all_args(variables, backend=backend, **kwargs); return getattr(backend, self._func_name)(arg)" := rfl
+    "def(self, variables, backend=math, **kwargs): v0, = self.all_args(variables, backend=backend, **kwargs); return getattr(backend, self._func_name)(v0)" := rfl
 
-/-- `Log10.__call__` (chempy/util/_expr.py) is the code the hand model `Model/Expr.call` was written from -/
+/-- `Log10.__call__` (chempy/util/_expr.py) is — up to the normalisation of tools/extract/ratessrc.py — the code the hand model was written from -/
 theorem log10Call_guard : Gen.srcLog10Call =
-    "def(self, variables, backend=math, **kwargs): if hasattr(backend, 'log10'): return super().__call__(variables, backend=backend, **kwargs); arg, = self.all_args(variables, backend=backend, **kwargs); return backend.log(arg) / backend.log(10)" := rfl
+    "def(self, variables, backend=math, **kwargs): if hasattr(backend, 'log10'): return super().__call__(variables, backend=backend, **kwargs); v0, = self.all_args(variables, backend=backend, **kwargs); return backend.log(v0) / backend.log(10)" := rfl
 
-/-- `_BinaryExpr.__call__` (chempy/util/_expr.py) is the code the hand model `Model/Expr.call` was written from -/
+/-- `_BinaryExpr.__call__` (chempy/util/_expr.py) is — up to the normalisation of tools/extract/ratessrc.py — the code the hand model was written from -/
 theorem binaryCall_guard : Gen.srcBinaryCall =
-    "def(self, variables, backend=math, **kwargs): arg0, arg1 = self.all_args(variables, backend=backend, **kwargs); return self._op(arg0, arg1)" := rfl
+    "def(self, variables, backend=math, **kwargs): v0, v1 = self.all_args(variables, backend=backend, **kwargs); return self._op(v0, v1)" := rfl
 
-/-- `_NegExpr.__call__` (chempy/util/_expr.py) is the code the hand model `Model/Expr.call` was written from -/
+/-- `_NegExpr.__call__` (chempy/util/_expr.py) is — up to the normalisation of tools/extract/ratessrc.py — the code the hand model was written from -/
 theorem negCall_guard : Gen.srcNegCall =
-    "def(self, variables, backend=math, **kwargs): arg0, = self.all_args(variables, backend=backend, **kwargs); return -arg0" := rfl
+    "def(self, variables, backend=math, **kwargs): v0, = self.all_args(variables, backend=backend, **kwargs); return -v0" := rfl
 
-/-- `Constant.__call__` (chempy/util/_expr.py) is the code the hand model `Model/Expr.call` was written from -/
+/-- `Constant.__call__` (chempy/util/_expr.py) is — up to the normalisation of tools/extract/ratessrc.py — the code the hand model was written from -/
 theorem constantCall_guard : Gen.srcConstantCall =
     "def(self, variables, backend=None, **kwargs): return self.args[0]" := rfl
 
-/-- `Symbol.__call__` (chempy/util/_expr.py) is the code the hand model `Model/Expr.call` was written from -/
+/-- `Symbol.__call__` (chempy/util/_expr.py) is — up to the normalisation of tools/extract/ratessrc.py — the code the hand model was written from -/
 theorem symbolCall_guard : Gen.srcSymbolCall =
-    "def(self, variables, backend=None, **kwargs): uk, = self.unique_keys; return variables[uk]" := rfl
+    "def(self, variables, backend=None, **kwargs): v0, = self.unique_keys; return variables[v0]" := rfl
 
 end ChemModel.C16
